@@ -389,6 +389,44 @@ static void do_mfile(const vector<string>& t) {
   catch (...) { res = "unknown"; }
   vt::Rec r; r.str("e", "mfile").str("kind", t[1]).str("part", t[2]).str("fault", fault).i("param", param).str("out", res).b("finite", fin); r.emit(); fflush(stdout);
 }
+
+// ---- malformed geoid rasters (.pgm): faults in the text header and in the binary data ----
+static void do_gfile(const vector<string>& t) {
+  // gfile <fault> <param>
+  const string& fault = t[1]; long long param = atoll(t[2].c_str());
+  int w = 12, h = 7;
+  string hdr = "P5\n# Description contract fixture\n# DateTime 2026-10-01 00:00:00\n# Offset -108\n# Scale 0.003\n# MaxBilinearError 0.1\n# RMSBilinearError 0.01\n"
+               "# MaxCubicError 0.1\n# RMSCubicError 0.01\n12 7\n65535\n";
+  string d = hdr; for (int j = 0; j < h; ++j) for (int i = 0; i < w; ++i) { unsigned v = unsigned(30000 + 400 * ((i * 7 + j * 13) % 17)); d.push_back(char(v >> 8)); d.push_back(char(v & 0xff)); }
+  auto lines = [&]() { vector<string> L; istringstream is(hdr); string l; while (getline(is, l)) L.push_back(l); return L; };
+  string data = d.substr(hdr.size());
+  auto rebuild = [&](const vector<string>& L) { d.clear(); for (auto& l : L) { d += l; d += '\n'; } d += data; };
+  if (fault == "truncate") d = d.substr(0, size_t(min<long long>(param, (long long) d.size())));
+  else if (fault == "flipbyte") d[size_t(param) % d.size()] = char(d[size_t(param) % d.size()] ^ 0x5a);
+  else if (fault == "zero") d[size_t(param) % d.size()] = 0;
+  else if (fault == "ff") d[size_t(param) % d.size()] = char(0xff);
+  else if (fault == "append") d += string(size_t(param % 50) + 1, 'x');
+  else if (fault == "dropline") { auto L = lines(); L.erase(L.begin() + long(size_t(param) % L.size())); rebuild(L); }
+  else if (fault == "dupline") { auto L = lines(); size_t k = size_t(param) % L.size(); L.insert(L.begin() + long(k), L[k]); rebuild(L); }
+  else if (fault.substr(0, 4) == "val-") {   // replace the last token of a header line by a value class
+    auto L = lines(); size_t k = size_t(param) % L.size(); size_t sp = L[k].rfind(' ');
+    L[k] = (sp == string::npos ? string() : L[k].substr(0, sp + 1)) + mf_value(fault.substr(4)); rebuild(L); }
+  else if (fault.substr(0, 4) == "dim-") {   // width height: replace one of them (param 0 / 1) or both (2)
+    auto L = lines(); string v = mf_value(fault.substr(4)); L[9] = param == 0 ? v + " 7" : param == 1 ? "12 " + v : v + " " + v; rebuild(L); }
+  { ofstream f((g_dir + "/cf.pgm").c_str(), ios::binary); f.write(d.data(), streamsize(d.size())); }
+  string res; bool fin = true;
+  try { for (int cubic = 0; cubic < 2; ++cubic) for (int ts = 0; ts < 2; ++ts) { Geoid g("cf", g_dir, cubic == 1, ts == 1);
+          double v = g(40.0, 10.0) + g(-90.0, 0.0) + g(90.0, 179.0) + g(-33.0, -179.9) + g.ConvertHeight(10.0, 20.0, 5.0, Geoid::ELLIPSOIDTOGEOID);
+          if (!ts) { g.CacheArea(-20, 100, 30, -100); v += g(0.0, 170.0); g.CacheAll(); v += g(12.0, 34.0); }
+          fin = fin && std::isfinite(v); }
+        res = "ok"; }
+  catch (const GeographicErr&) { res = "GeographicErr"; }
+  catch (const std::bad_alloc&) { res = "bad_alloc"; }
+  catch (const std::length_error&) { res = "length_error"; }
+  catch (const std::exception&) { res = "std::exception"; }
+  catch (...) { res = "unknown"; }
+  vt::Rec r; r.str("e", "gfile").str("fault", fault).i("param", param).str("out", res).b("finite", fin); r.emit(); fflush(stdout);
+}
 static void on_alarm(int) { _exit(124); }
 int main(int argc, char** argv) {
   signal(SIGALRM, on_alarm);
@@ -406,7 +444,7 @@ int main(int argc, char** argv) {
     // announce the vector before executing it, so that a crash is attributable
     fprintf(stderr, "@ %lld %s\n", n, line.c_str()); fflush(stderr);
     alarm(wd);   // watchdog: a vector that does not return within wd seconds is a hang (exit code 124), attributed to this vector
-    if (t[0] == "call") do_call(t); else if (t[0] == "str") do_str(t); else if (t[0] == "nn") do_nn(t); else if (t[0] == "mfile") do_mfile(t);
+    if (t[0] == "call") do_call(t); else if (t[0] == "str") do_str(t); else if (t[0] == "nn") do_nn(t); else if (t[0] == "mfile") do_mfile(t); else if (t[0] == "gfile") do_gfile(t);
   }
   return 0;
 }
